@@ -94,6 +94,14 @@ CLAIMS["C19"] = {
   "technique": "contract-based verification: provenance (data-cone) obligations over go/ssa",
   "design_ref": "DESIGN.md section 4 C19",
 }
-NA = {k: PENDING for k in ["C01","C02","C04"]}
+CLAIMS["C01"] = {
+  "text": "Proof of the literal/charset clause for the encoding layer: helpers.encodeWTF8Rune produces the canonical WTF-8 byte sequence of every code point and helpers.DecodeWTF8Rune is its left inverse, rejects overlong forms, never reads past the string and always makes progress (bit-vector proofs, loop-free, complete); in js_printer.printUnquotedUTF16 (strings and templates) every append site is proved to emit only ASCII bytes when the ASCII charset is selected, never the raw delimiter without a backslash it emitted itself, a raw line feed only inside a template or as a line continuation and never a raw carriage return, with all look-ahead reads in range and the scan terminating; UTF-16 helper loops (surrogate look-ahead, equality) are proved against quantified specifications.",
+  "note": "NOT covered: everything about programs - parenthesisation by precedence, ASI and `in`/arrow hazards, token gluing, JSX rewriting, number printing, regular expressions, identifier quoting (QuoteIdentifier iterates over runes of a Go string, whose decoding is not modelled), the decode-inverse of the full JS escape grammar, bytes produced by fmt.Sprintf at two sites (assumed ASCII, listed), StringToUTF16/UTF16ToString.",
+  "technique": "contract-based deductive verification: bit-vector codec proofs + per-append site obligations with loop invariants (SMT)",
+  "design_ref": "DESIGN.md section 4 C01",
+}
+NA = {k: PENDING for k in ["C02","C04"]}
+NA["C02"] = "No contract within reach carries this property at present: import/export matching, wrapper selection, evaluation order and interop are statements about the semantics of the emitted JavaScript; the two Go-level kernels planned in DESIGN.md (data-URL round trip, symbol union-find with path compression) need a decode specification over strings and an inductive heap-shape argument that the generator does not support (only the bounds safety of the data-URL escaper is proved, and it is reported under C16)."
+NA["C04"] = "Purity classification (what may be removed) is a statement about JavaScript semantics; the reachability kernel (liveness marking closed under part dependencies) needs an inductive closure argument over the nested file/part graph that the generator does not support. Not claimed rather than checked by another technique."
 NA["C05"] = "Lowering correctness is equivalence between two JavaScript programs (native construct vs helper-call expansion; helpers are JS text in runtime.go); a Go-level contract can state an AST shape, not what the shape computes. The Go-level facts (a construct is lowered iff its feature bit is unsupported) are C14's gate obligations."
 NA["C13"] = "Output re-parses / is a fixed point of print∘parse / every valid program is accepted are relations over the whole lexer+parser+printer against the ECMAScript and CSS grammars; no function's postcondition states them short of a verified parser."
